@@ -35,11 +35,17 @@ def strat(tier):
     cfl = st.one_of(gen.f(0.02, 0.5), st.sampled_from([0.5, 0.45, 0.25]))
     eul = st.builds(lambda g, fl, r, p, m: (dict(name="euler1d", gamma=g), fl, dict(lnrho=r, lnp=p, mach=m)),
                     st.sampled_from([1.1, 1.2, 1.4, 5.0 / 3.0, 2.0]), st.sampled_from(["hlle", "hllc"]), _ln(), _ln(), _mach())
+    # dense stream against light gas at the same temperature (density and pressure jump together, by up to 1e4, same sound speed) in supersonic relative motion
+    LN1E4 = math.log(1.0e4)
+    vbig = st.one_of(gen.f(-LN1E4 / 2, LN1E4 / 2), st.sampled_from([-LN1E4 / 2, LN1E4 / 2, 0.0]))
+    lnbig = st.one_of(gen.prof_vals(vbig), gen.prof_steps(vbig), gen.prof_steps(vbig))
+    iso = st.builds(lambda g, fl, r, m: (dict(name="euler1d", gamma=g), fl, dict(lnrho=r, lnp=r, mach=m)),
+                    st.sampled_from([1.1, 1.2, 1.4, 5.0 / 3.0, 2.0]), st.sampled_from(["hlle", "hllc"]), lnbig, _mach())
     sw = st.builds(lambda g, fl, h, m: (dict(name="shallowwater", g=g), fl, dict(lnh=h, froude=m)),
                    st.one_of(st.just(9.81), gen.logf(-1, 2)), st.sampled_from(["rusanov", "hll"]), _ln(), _mach())
     return st.builds(lambda mf, n, L, bc, integ, c, ns, un: dict(model=mf[0], flux=mf[1], state=mf[2], mesh=dict(kind="uni", n=n, length=L, x0=0.0), num=dict(name="extrapol1"),
                                                                  bcL={"type": bc}, bcR={"type": bc}, integ=integ, cfl=c, nsteps=ns, units=un),
-                     st.one_of(eul, eul, sw), st.integers(2, nmax), st.one_of(gen.logf(-1, 1), gen.logf(-1, 1), gen.logf(-9, 4)), st.sampled_from(["per", "sym"]), st.sampled_from(SSP), cfl, st.integers(12, smax),
+                     st.one_of(eul, eul, iso, sw), st.integers(2, nmax), st.one_of(gen.logf(-1, 1), gen.logf(-1, 1), gen.logf(-9, 4)), st.sampled_from(["per", "sym"]), st.sampled_from(SSP), cfl, st.integers(12, smax),
                      sim.units_strategy())
 
 
